@@ -460,6 +460,14 @@ func m3GenCase(r *Rng, pf m3Profile, idx int) *m3Case {
 		multi = 0
 	}
 	cs.collide = pf.suite == "c13" && r.Chance(35)
+	// a high-cardinality history: after the first handles (colliding tag maps among them) more distinct tag
+	// sets are allocated than the reporter's resource pools hold (DefaultMaxQueueSize = 4096), then the early
+	// handles are used again -- storage recycled while still referenced shows up as foreign tags
+	highCard := pf.suite == "c13" && idx%23 == 7 && !longRun
+	if highCard {
+		cs.collide, multi = true, 0
+		cls("high-cardinality")
+	}
 	// handles
 	nHandles := r.Range(1, 12)
 	var handles []*m3Handle
@@ -521,6 +529,20 @@ func m3GenCase(r *Rng, pf m3Profile, idx int) *m3Case {
 			handles = append(handles, hd)
 			cs.main = append(cs.main, m3Op{op: opAlloc, hd: hd})
 			if j == 0 { // first report immediately after the constructor returned
+				cs.main = append(cs.main, m3GenReport(r, hd))
+			}
+		}
+		if highCard {
+			nFill := m3.DefaultMaxQueueSize + r.Range(8, 600)
+			for i := 0; i < nFill; i++ {
+				hd := m3GenHandle(r, next, "counter", "fill", map[string]string{"fill": strconv.Itoa(i)})
+				next++
+				cs.main = append(cs.main, m3Op{op: opAlloc, hd: hd})
+				if i%500 == 17 || i == nFill-1 {
+					handles = append(handles, hd)
+				}
+			}
+			for _, hd := range handles { // every early handle is used again after the pools have cycled
 				cs.main = append(cs.main, m3GenReport(r, hd))
 			}
 		}
